@@ -1,0 +1,169 @@
+//go:build verif
+
+// Package verifc04 holds the client-side helpers shared by the C04 verification drivers
+// (api/handler and api/token): minting of JWTs from a declarative spec and the tabulation of
+// the jwt library's own verdict ("oracle") per (Authorization header, secret).
+package verifc04
+
+import (
+	"encoding/json"
+	"net/http"
+	"net/http/httptest"
+	"sort"
+	"strings"
+	"time"
+
+	"github.com/golang-jwt/jwt/v4"
+	"github.com/golang-jwt/jwt/v4/request"
+)
+
+// TokenSpec describes one token to mint.
+type TokenSpec struct {
+	Alg    string         `json:"alg"`    // HS256 | HS384 | HS512 | none | RS256junk
+	Secret string         `json:"secret"` // signing secret (HS*)
+	Claims map[string]any `json:"claims"` // non time claims
+	Exp    *int64         `json:"exp"`    // offset in seconds relative to now, nil = absent
+	Nbf    *int64         `json:"nbf"`
+	Iat    *int64         `json:"iat"`
+	Mangle string         `json:"mangle"` // "" | truncate | flipsig | flippayload | raw | twoparts | swapalg
+	Raw    string         `json:"raw"`    // token text for mangle=raw
+	Cut    int            `json:"cut"`    // chars removed for truncate
+}
+
+// Mint builds the compact token text.
+func Mint(ts TokenSpec, now time.Time) string {
+	if ts.Mangle == "raw" {
+		return ts.Raw
+	}
+	claims := jwt.MapClaims{}
+	for k, v := range ts.Claims {
+		claims[k] = v
+	}
+	if ts.Exp != nil {
+		claims["exp"] = now.Unix() + *ts.Exp
+	}
+	if ts.Nbf != nil {
+		claims["nbf"] = now.Unix() + *ts.Nbf
+	}
+	if ts.Iat != nil {
+		claims["iat"] = now.Unix() + *ts.Iat
+	}
+	var s string
+	var err error
+	switch ts.Alg {
+	case "HS256":
+		s, err = jwt.NewWithClaims(jwt.SigningMethodHS256, claims).SignedString([]byte(ts.Secret))
+	case "HS384":
+		s, err = jwt.NewWithClaims(jwt.SigningMethodHS384, claims).SignedString([]byte(ts.Secret))
+	case "HS512":
+		s, err = jwt.NewWithClaims(jwt.SigningMethodHS512, claims).SignedString([]byte(ts.Secret))
+	case "none":
+		s, err = jwt.NewWithClaims(jwt.SigningMethodNone, claims).SignedString(jwt.UnsafeAllowNoneSignatureType)
+	case "RS256junk":
+		// RS256 header, signature bytes are an HS256 mac of the signing input (junk for RSA)
+		t := jwt.NewWithClaims(jwt.SigningMethodRS256, claims)
+		var ss string
+		ss, err = t.SigningString()
+		if err == nil {
+			var sig string
+			sig, err = jwt.SigningMethodHS256.Sign(ss, []byte(ts.Secret))
+			s = ss + "." + sig
+		}
+	default:
+		return "unknown-alg"
+	}
+	if err != nil {
+		return "mint-error:" + err.Error()
+	}
+	parts := strings.Split(s, ".")
+	switch ts.Mangle {
+	case "truncate":
+		if ts.Cut > 0 && ts.Cut < len(s) {
+			s = s[:len(s)-ts.Cut]
+		}
+	case "flipsig":
+		if len(parts) == 3 && len(parts[2]) > 2 {
+			b := []byte(parts[2])
+			if b[1] == 'A' {
+				b[1] = 'B'
+			} else {
+				b[1] = 'A'
+			}
+			s = parts[0] + "." + parts[1] + "." + string(b)
+		}
+	case "flippayload":
+		if len(parts) == 3 && len(parts[1]) > 4 {
+			b := []byte(parts[1])
+			if b[3] == 'A' {
+				b[3] = 'B'
+			} else {
+				b[3] = 'A'
+			}
+			s = parts[0] + "." + string(b) + "." + parts[2]
+		}
+	case "twoparts":
+		if len(parts) == 3 {
+			s = parts[0] + "." + parts[1]
+		}
+	case "nosig":
+		if len(parts) == 3 {
+			s = parts[0] + "." + parts[1] + "."
+		}
+	}
+	return s
+}
+
+// Verdict is the jwt library's answer for one Authorization header value under one secret.
+type Verdict struct {
+	Err    bool              `json:"err"`    // ParseFromRequest returned an error
+	Valid  bool              `json:"valid"`  // token.Valid (false when no token came back)
+	IsMap  bool              `json:"ismap"`  // token.Claims is jwt.MapClaims
+	Claims map[string]string `json:"claims"` // canonical JSON text per claim (when IsMap)
+}
+
+// Request builds a request carrying the given Authorization header value ("" = no header).
+func Request(header string) *http.Request {
+	r := httptest.NewRequest(http.MethodGet, "http://localhost/verif", nil)
+	if header != "" {
+		r.Header.Set("Authorization", header)
+	}
+	return r
+}
+
+// Oracle asks the jwt library directly (no code of the repository involved).
+func Oracle(header, secret string) Verdict {
+	tok, err := request.ParseFromRequest(Request(header), request.AuthorizationHeaderExtractor,
+		func(*jwt.Token) (interface{}, error) { return []byte(secret), nil },
+		request.WithParser(jwt.NewParser(jwt.WithJSONNumber())))
+	v := Verdict{Err: err != nil}
+	if tok != nil {
+		v.Valid = tok.Valid
+		if mc, ok := tok.Claims.(jwt.MapClaims); ok {
+			v.IsMap = true
+			v.Claims = map[string]string{}
+			for k, x := range mc {
+				v.Claims[k] = Canon(x)
+			}
+		}
+	}
+	return v
+}
+
+// Canon renders a context/claim value canonically.
+func Canon(x any) string {
+	b, err := json.Marshal(x)
+	if err != nil {
+		return "unmarshalable"
+	}
+	return string(b)
+}
+
+// SortedKeys of a string-keyed map.
+func SortedKeys[V any](m map[string]V) []string {
+	ks := make([]string, 0, len(m))
+	for k := range m {
+		ks = append(ks, k)
+	}
+	sort.Strings(ks)
+	return ks
+}
